@@ -988,7 +988,7 @@ func genShell(r *rand.Rand, ctx string) shellCase {
 		emitOps("a", &sub, n-pre, "  ")
 		showNow("a", sub, "  ")
 		src.WriteString(")\n")
-		iv = ivParent // what the subshell did to i, j, k stays there
+		iv = ivParent         // what the subshell did to i, j, k stays there
 		showNow("a", cur, "") // the parent is unchanged
 		emitOps("a", &cur, r.IntN(4), "")
 		showNow("a", cur, "")
